@@ -5,6 +5,7 @@ import (
 	"regexp"
 	"strings"
 	"testing"
+	"time"
 
 	"pgregory.net/rapid"
 
@@ -12,6 +13,7 @@ import (
 	"verif/harness/docs"
 	"verif/harness/gen"
 	"verif/harness/goast"
+	"verif/harness/jv"
 	"verif/harness/model"
 )
 
@@ -36,6 +38,194 @@ func evalC01(cs *gen.Case) (status string, problems []string) {
 		problems = append(problems, p.String())
 	}
 	return "ok", problems
+}
+
+// c01CLILimit bounds one generator run through the real CLI (normally
+// milliseconds); exceeding it means the run does not terminate.
+var c01CLILimit = 20 * time.Second
+
+// evalC01CLI is evalC01 through the real CLI with a time limit, used for the
+// schema families in which a non-terminating run has to be survivable.
+func evalC01CLI(cs *gen.Case) (status string, problems []string) {
+	res, err := gen.RunCLI(cs, nil, nil, c01CLILimit, false)
+	if err != nil {
+		return "infra:" + err.Error(), nil
+	}
+	if res.TimedOut {
+		return "ok", []string{fmt.Sprintf("generation did not terminate within %v", c01CLILimit)}
+	}
+	if res.Exit != 0 {
+		if strings.Contains(res.Stderr, "panic:") || strings.Contains(res.Stderr, "goroutine ") {
+			return "panic", nil
+		}
+		return "rejected", nil
+	}
+	if strings.Contains(res.Stderr, "could not be formatted") {
+		problems = append(problems, "tool could not gofmt its own output")
+	}
+	gr := gen.Result{Sources: map[string]string{"-": res.Stdout}}
+	ps, _ := goast.CheckPackages(packagesOf(cs, &gr))
+	for _, p := range ps {
+		if p.Kind == "infra" {
+			return "infra:" + p.Msg, nil
+		}
+		problems = append(problems, p.String())
+	}
+	return "ok", problems
+}
+
+// genC01Mixed: the full-mix grammar with allOf/anyOf branches of every kind
+// (null, primitives, enums, arrays, references to any definition) and
+// composites as array items and definitions.
+func genC01Mixed(t *rapid.T, c *core.Ctx) (*gen.Case, *model.File) {
+	prof := fullMixProfile(c)
+	prof.MixedBranches = true
+	prof.WAllOf, prof.WAnyOf = prof.WAllOf+3, prof.WAnyOf+5
+	prof.PDefault = 0
+	f := prof.File(t, "prog.json")
+	cfg := baseConfig()
+	cfg.ExtraImports = rapid.Bool().Draw(t, "extraImports")
+	cfg.OnlyModels = rapid.IntRange(0, 5).Draw(t, "onlyModels") == 0
+	cfg.MinSizedInts = rapid.IntRange(0, 3).Draw(t, "minSizedInts") == 0
+	return caseOf(cfg, []string{f.RelPath}, f), f
+}
+
+// genC01Cycles: 1-4 object definitions that refer to themselves and to each
+// other through every kind of link (optional/required property, array items,
+// map values, nullable anyOf, single-branch allOf, two-reference anyOf).
+func genC01Cycles(t *rapid.T, c *core.Ctx) (*gen.Case, *model.File) {
+	f := &model.File{RelPath: "prog.json", ID: "https://example.com/prog"}
+	nd := rapid.IntRange(1, 4).Draw(t, "ndefs")
+	defs := make([]*model.Node, nd)
+	for i := range defs {
+		defs[i] = &model.Node{Kind: model.KObject, Props: []model.Prop{{Name: "value", Node: &model.Node{Kind: model.KInteger}}}, Required: []string{"value"}}
+		f.Defs = append(f.Defs, model.Def{Name: fmt.Sprintf("N%d", i), Node: defs[i]})
+	}
+	ref := func(i int) *model.Node {
+		return &model.Node{Kind: model.KRef, Ref: fmt.Sprintf("#/$defs/N%d", i), Target: defs[i]}
+	}
+	links := []string{"optional", "optional", "items", "map"}
+	for _, sw := range []struct{ link, sw string }{{"required", "cycles.required_property"}, {"anyOfNull", "anyof.object_and_non_object_branches"},
+		{"itemsAnyOf", "cycles.anyof_back_reference"}, {"anyOfTwo", "cycles.anyof_back_reference"}, {"allOfOne", "cycles.allof_back_reference"}} {
+		if nd == 1 && sw.link == "anyOfTwo" {
+			links = append(links, sw.link) // a definition that only refers to itself is not affected
+			continue
+		}
+		if c.Avoid(sw.sw) {
+			c.ExcludedMap()[sw.sw]++
+			continue
+		}
+		links = append(links, sw.link)
+	}
+	for i, d := range defs {
+		nl := rapid.IntRange(1, 3).Draw(t, "nlinks")
+		for k := 0; k < nl; k++ {
+			// the first link of definition i closes a ring over all definitions
+			to := (i + 1) % nd
+			if k > 0 {
+				to = rapid.IntRange(0, nd-1).Draw(t, "to")
+			}
+			name := fmt.Sprintf("l%d", k)
+			var n *model.Node
+			link := rapid.SampledFrom(links).Draw(t, "link")
+			switch link {
+			case "optional":
+				n = ref(to)
+			case "required":
+				n = ref(to)
+				d.Required = append(d.Required, name)
+			case "items":
+				n = &model.Node{Kind: model.KArray, Items: ref(to)}
+			case "map":
+				n = &model.Node{Kind: model.KObject, Additional: &model.Additional{Schema: ref(to)}}
+			case "anyOfNull":
+				n = &model.Node{Kind: model.KAnyOf, Branches: []*model.Node{ref(to), {Kind: model.KNull}}}
+			case "anyOfTwo":
+				n = &model.Node{Kind: model.KAnyOf, Branches: []*model.Node{ref(to), ref(rapid.IntRange(0, nd-1).Draw(t, "to2"))}}
+			case "itemsAnyOf":
+				n = &model.Node{Kind: model.KArray, Items: &model.Node{Kind: model.KAnyOf, Branches: []*model.Node{ref(to), {Kind: model.KObject, Props: []model.Prop{{Name: "leaf", Node: &model.Node{Kind: model.KString}}}}}}}
+			case "allOfOne":
+				n = &model.Node{Kind: model.KAllOf, Branches: []*model.Node{ref(to)}}
+			}
+			d.Props = append(d.Props, model.Prop{Name: name, Node: n})
+			c.Count("cycles.link." + link)
+		}
+	}
+	f.Root = &model.Node{Kind: model.KObject, Props: []model.Prop{{Name: "head", Node: ref(0)}}}
+	cfg := baseConfig()
+	cfg.ExtraImports = rapid.Bool().Draw(t, "extraImports")
+	cfg.OnlyModels = rapid.IntRange(0, 5).Draw(t, "onlyModels") == 0
+	return caseOf(cfg, []string{f.RelPath}, f), f
+}
+
+// reduceC01 shrinks the failing case further at the JSON level while the same
+// class of problem (normalised first message) is reported.
+func reduceC01(r *core.Replay, eval func(*gen.Case) (string, []string), budget int) {
+	want := surveyKey(strings.Split(r.Observed, "\n"))
+	var lastProbs []string
+	small, n := reduceStaticCase(r.Case, func(cs *gen.Case) bool {
+		st, probs := eval(cs)
+		if st != "ok" || len(probs) == 0 || surveyKey(probs) != want {
+			return false
+		}
+		lastProbs = probs
+		return true
+	}, budget)
+	if n > 0 && lastProbs != nil && len(small.Files[0].Text) < len(r.Case.Files[0].Text) {
+		r.Note = fmt.Sprintf("reduced at the JSON level with %d evaluations from a %d-byte schema", n, len(r.Case.Files[0].Text))
+		r.Case = small
+		st, probs := eval(small)
+		if st == "ok" && len(probs) > 0 {
+			r.Observed = strings.Join(probs, "\n")
+		}
+	}
+}
+
+var surveySeen = map[string]bool{}
+
+// runC01CLI drives one schema family through evalC01CLI.
+func runC01CLI(c *core.Ctx, name string, n, salt int, gen func(*rapid.T, *core.Ctx) (*gen.Case, *model.File)) {
+	var last *core.Replay
+	res := c.Rapid(name, n, salt, func(rt *rapid.T) {
+		cs, _ := gen(rt, c)
+		st, probs := evalC01CLI(cs)
+		c.Eval(1)
+		c.Count(name + ".status." + strings.SplitN(st, ":", 2)[0])
+		if strings.HasPrefix(st, "infra") {
+			c.Infra(st)
+			return
+		}
+		if st != "ok" {
+			return
+		}
+		c.Program(1)
+		c.NonTrivial(cs.Files[0].Text, strings.Join(cs.Config.Args(), " "))
+		c.Sample(describeCase(cs))
+		if len(probs) > 0 && c.Survey() {
+			key := name + ":" + surveyKey(probs)
+			c.SurveyAdd(key, strings.Join(cs.Config.Args(), " ")+"\n"+strings.Join(probs, "\n"))
+			if !surveySeen[key] {
+				surveySeen[key] = true
+				r := &core.Replay{Check: "typecheck-cli", Case: cs, Observed: strings.Join(probs, "\n")}
+				reduceC01(r, evalC01CLI, 150)
+				c.SurveyReplay(key, r)
+			}
+			return
+		}
+		if len(probs) > 0 {
+			last = &core.Replay{Check: "typecheck-cli", Case: cs, Expected: "the run terminates and every emitted file parses, is gofmt-stable and type-checks", Observed: strings.Join(probs, "\n")}
+			rt.Fatalf("C01: %s", probs[0])
+		}
+	})
+	c.Extra(name+"_rapid_passed", res.Passed)
+	if res.Failed {
+		if last != nil {
+			reduceC01(last, evalC01CLI, 150)
+			c.Violation("typecheck-cli:"+name+":"+firstLine(last.Observed), firstLine(last.Observed), last)
+		} else {
+			c.Infra("rapid failed without a recorded case: " + core.Clip(res.Msg, 500))
+		}
+	}
 }
 
 func featureSig(f *model.File, cfg gen.Config) string {
@@ -92,6 +282,9 @@ func genC01Case(t *rapid.T, c *core.Ctx) (*gen.Case, *model.File) {
 	for _, d := range f.Defs {
 		docs.AddDefaults(t, d.Node, prof.PDefault, dopts, allow)
 	}
+	if rapid.IntRange(0, 7).Draw(t, "localnames") == 0 {
+		addLocalIdentifierDefs(t, c, f)
+	}
 	if rapid.IntRange(0, 3).Draw(t, "hastitle") == 0 {
 		f.Title = rapid.SampledFrom([]string{"My Title", "thing", "a b-c", "Ünï cödé", "9 lives", "日本", "x*y", "  padded  "}).Draw(t, "title")
 	}
@@ -103,13 +296,52 @@ func genC01Case(t *rapid.T, c *core.Ctx) (*gen.Case, *model.File) {
 	return caseOf(cfg, []string{f.RelPath}, f), f
 }
 
+// addLocalIdentifierDefs names definitions after the identifiers the emitted
+// methods declare locally (the alias type Plain and its de-duplicated forms):
+// a schema type of that name must not be shadowed inside its own method.
+func addLocalIdentifierDefs(t *rapid.T, c *core.Ctx, f *model.File) {
+	if f.Root.Kind != model.KObject {
+		return
+	}
+	have := map[string]bool{}
+	for _, d := range f.Defs {
+		have[strings.ToLower(d.Name)] = true
+	}
+	names := [][]string{{"Plain"}, {"plain"}, {"Plain", "Plain_0"}, {"Plain", "Plain_0", "Plain_1"}, {"PLAIN"}, {"Raw", "Plain"}}
+	set := rapid.SampledFrom(names).Draw(t, "localnameset")
+	for i, nm := range set {
+		if have[strings.ToLower(nm)] {
+			return
+		}
+		have[strings.ToLower(nm)] = true
+		one := 1
+		var def *model.Node
+		switch rapid.IntRange(0, 2).Draw(t, "localnamekind") {
+		case 0:
+			def = &model.Node{Kind: model.KObject, Props: []model.Prop{{Name: "id", Node: &model.Node{Kind: model.KString, MinLength: &one}}}, Required: []string{"id"}}
+		case 1:
+			def = &model.Node{Kind: model.KObject, Props: []model.Prop{{Name: "n", Node: &model.Node{Kind: model.KInteger}}, {Name: "s", Node: &model.Node{Kind: model.KString}}}, Required: []string{"n"}}
+		default:
+			def = &model.Node{Kind: model.KEnum, EnumVals: []jv.V{jv.StrV("a"), jv.StrV("b")}}
+		}
+		f.Defs = append(f.Defs, model.Def{Name: nm, Node: def})
+		f.Root.Props = append(f.Root.Props, model.Prop{Name: fmt.Sprintf("zlocal%d", i), Node: &model.Node{Kind: model.KRef, Ref: "#/$defs/" + nm, Target: def}})
+	}
+	c.Count("shape.local_identifier_definition_names")
+}
+
 func TestC01(t *testing.T) {
 	c := core.New(t, "C01")
 	defer c.Finish()
-	c.Rule("schemas from the full-mix grammar (all node kinds, constraints, nullable, defaults, formats, enums, refs, allOf/anyOf, hostile descriptions) x random option sets; each accepted case: no gofmt warning, go/parser, gofmt fixpoint, go/types against declared imports; non-trivial = accepted case whose output has >=1 method or >=2 distinct feature kinds; distinct by sha256(files,args)")
+	c.Rule("schemas from the full-mix grammar (all node kinds, constraints, nullable, defaults, formats, enums, refs, allOf/anyOf, hostile descriptions, definitions named like the identifiers the emitted methods declare) x random option sets, plus two families run through the real CLI under a time limit: 'mixed' (allOf/anyOf branches of every kind - null, primitives, enums, arrays, references to any definition - and composites as array items and definitions) and 'cycles' (rings of 1-4 definitions linked through optional/required properties, array items, map values, nullable/two-reference anyOf, single-branch allOf); each accepted case: the run terminates, no gofmt warning, go/parser, gofmt fixpoint, go/types against declared imports; non-trivial = accepted case whose output has >=1 method or >=2 distinct feature kinds; distinct by sha256(files,args)")
 	c.Assume("Go toolchain go/parser, go/format, go/types and gc export data as reference for 'valid Go that compiles'", "extension objects are consistent (type/imports) — inconsistent ones are user error")
 	eval := func(r *core.Replay) (bool, string, error) {
-		st, probs := evalC01(r.Case)
+		st, probs := "", []string(nil)
+		if r.Check == "typecheck-cli" {
+			st, probs = evalC01CLI(r.Case)
+		} else {
+			st, probs = evalC01(r.Case)
+		}
 		if strings.HasPrefix(st, "infra") {
 			return false, "", fmt.Errorf("%s", st)
 		}
@@ -151,10 +383,13 @@ func TestC01(t *testing.T) {
 			rt.Fatalf("C01: %s", probs[0])
 		}
 	})
+	runC01CLI(c, "mixed", c.N(500, 12000), 1, genC01Mixed)
+	runC01CLI(c, "cycles", c.N(250, 6000), 2, genC01Cycles)
 	c.Extra("feature_signatures", len(sigs))
 	c.Extra("rapid_passed", res.Passed)
 	if res.Failed {
 		if last != nil {
+			reduceC01(last, evalC01, 400)
 			c.Violation("typecheck:"+firstLine(last.Observed), firstLine(last.Observed), last)
 		} else {
 			c.Infra("rapid failed without a recorded case: " + core.Clip(res.Msg, 500))
